@@ -12,6 +12,20 @@ from asyncfix import FIXMessage, FTag
 from asyncfix.errors import FIXMessageError
 from asyncfix.message import FIXContainer
 
+# Strict FIX 4.4 lexical layouts (ASCII only). int() / float() / strptime() alone also accept
+#  ' 5', '+5', '1_0', '1e3', non-ASCII digits, unpadded or missing date / time parts.
+_HMS = r"[0-9]{2}:[0-9]{2}:[0-9]{2}"
+_FIX_LAYOUT = {
+    int: r"-?[0-9]+",
+    float: r"-?([0-9]+\.?[0-9]*|\.[0-9]+)",
+    "%Y%m": r"[0-9]{6}",
+    "%Y%m%d": r"[0-9]{8}",
+    "%H:%M:%S": _HMS,
+    "%Y%m%d-%H:%M:%S": r"[0-9]{8}-" + _HMS,
+    "%H:%M:%S.%f": _HMS + r"\.[0-9]{3}([0-9]{3})?",
+    "%Y%m%d-%H:%M:%S.%f": r"[0-9]{8}-" + _HMS + r"\.[0-9]{3}([0-9]{3})?",
+}
+
 
 @dataclasses.dataclass
 class SchemaField:
@@ -126,6 +140,8 @@ class SchemaField:
 
         try:
             dtm.datetime.strptime(value, format)
+            if not re.fullmatch(_FIX_LAYOUT[format], value):
+                return f"value is not in FIX layout of {format}"
             return None  # all good
         except Exception as exc:
             return str(exc)
@@ -199,6 +215,8 @@ class SchemaField:
                 raise ValueError("not isfinite number")
             if num_range and not (v >= num_range[0] and v <= num_range[1]):
                 raise ValueError(f"out of range {num_range}")
+            if not re.fullmatch(_FIX_LAYOUT[num_type], value):
+                raise ValueError("value is not in FIX number layout")
             # all good
             return None
         except ValueError as exc:
